@@ -958,4 +958,151 @@ theorem entries_out (cfg : Cfg) (hcfg : cfgOk cfg = true) (inc : Nat) :
       simp [xmlEntries, hbody, hne, hr, bind, Except.bind]
 end
 
+/-! ### the declaration and the document level -/
+
+theorem dropPrefix?_append (p r : Str) : dropPrefix? (p ++ r) p = some r := by
+  induction p with
+  | nil => cases r <;> rfl
+  | cons c p ih => simp [dropPrefix?, ih]
+
+theorem takeWhile_append_stop {α} (p : α → Bool) (a : List α) (x : α) (r : List α) (ha : ∀ y ∈ a, p y = true)
+    (hx : p x = false) : (a ++ x :: r).takeWhile p = a ∧ (a ++ x :: r).dropWhile p = x :: r := by
+  induction a with
+  | nil => simp [hx]
+  | cons y a ih =>
+    have hy := ha y (by simp)
+    have := ih (fun z hz => ha z (by simp [hz]))
+    simp [hy, this.1, this.2]
+
+theorem stripDecl_nodecl (c : Char) (tl : Str) (hc : c ≠ '?') : stripDecl ('<' :: c :: tl) = .ok ('<' :: c :: tl) := by
+  simp [stripDecl, dropPrefix?, hc]
+
+theorem stripDecl_decl (q e0 : Char) (es X : Str) (hq : q = '"' ∨ q = '\'') (he0 : isEncStart e0 = true)
+    (hes : ∀ c ∈ es, isEncChar c = true) :
+    stripDecl (declHead ++ [q] ++ ['1', '.', '0'] ++ [q] ++ declEnc ++ [q] ++ (e0 :: es) ++ [q] ++ ['?', '>', '\n'] ++ X)
+      = .ok ('\n' :: X) := by
+  have hqenc : isEncChar q = false := by rcases hq with rfl | rfl <;> decide
+  have he0c : isEncChar e0 = true := by
+    simp only [isEncStart] at he0
+    simp [isEncChar, he0]
+  have hall : ∀ c ∈ e0 :: es, isEncChar c = true := by
+    intro c hc
+    rcases List.mem_cons.1 hc with rfl | h
+    · exact he0c
+    · exact hes c h
+  obtain ⟨ht, hd⟩ := takeWhile_append_stop isEncChar (e0 :: es) q (['?', '>', '\n'] ++ X) hall hqenc
+  have hshape : declHead ++ [q] ++ ['1', '.', '0'] ++ [q] ++ declEnc ++ [q] ++ (e0 :: es) ++ [q] ++ ['?', '>', '\n'] ++ X
+      = declHead ++ (q :: ((['1', '.', '0', q] ++ declEnc ++ [q]) ++ ((e0 :: es) ++ q :: (['?', '>', '\n'] ++ X)))) := by
+    simp [List.append_assoc]
+  rw [hshape]
+  unfold stripDecl
+  have h1 : dropPrefix? (declHead ++ (q :: ((['1', '.', '0', q] ++ declEnc ++ [q]) ++ ((e0 :: es) ++ q :: (['?', '>', '\n'] ++ X))))) ['<', '?']
+      = some (['x', 'm', 'l', ' ', 'v', 'e', 'r', 's', 'i', 'o', 'n', '='] ++ (q :: ((['1', '.', '0', q] ++ declEnc ++ [q]) ++ ((e0 :: es) ++ q :: (['?', '>', '\n'] ++ X))))) := by
+    simp [declHead, dropPrefix?]
+  rw [h1]
+  simp only
+  rw [dropPrefix?_append]
+  simp only
+  have hq' : (q = '"' || q = '\'') = true := by rcases hq with rfl | rfl <;> decide
+  rw [if_pos (by simpa using hq')]
+  rw [dropPrefix?_append]
+  simp only
+  rw [ht, hd]
+  simp [he0, dropPrefix?]
+
+theorem run_doc_nl (cur : Frame) (rb : Nat) (s : Str) :
+    run ⟨cur, [], .text rb⟩ ('\n' :: s) = run ⟨cur, [], .text 0⟩ s := by
+  simp [run, step, stepText, isXmlSpace]
+
+theorem xmlRead_of_elem (s : Str) (e : Elem) (c : Char) (tl : Str) (hs : s = '<' :: c :: tl) (hc : c ≠ '?')
+    (h : ReadsElem s e) : xmlRead s = .ok e := by
+  unfold xmlRead
+  rw [hs, stripDecl_nodecl c tl hc, ← hs]
+  have := h docFrame [] 0 (fun _ => rfl)
+  simp only [bind, Except.bind, RSt.init]
+  rw [this]
+  simp [finish, docFrame]
+
+theorem xmlRead_decl_elem (q e0 : Char) (es s : Str) (e : Elem) (hq : q = '"' ∨ q = '\'') (he0 : isEncStart e0 = true)
+    (hes : ∀ c ∈ es, isEncChar c = true) (h : ReadsElem s e) :
+    xmlRead (declHead ++ [q] ++ ['1', '.', '0'] ++ [q] ++ declEnc ++ [q] ++ (e0 :: es) ++ [q] ++ ['?', '>', '\n'] ++ s) = .ok e := by
+  unfold xmlRead
+  rw [stripDecl_decl q e0 es s hq he0 hes]
+  have := h docFrame [] 0 (fun _ => rfl)
+  simp only [bind, Except.bind, RSt.init]
+  rw [run_doc_nl, this]
+  simp [finish, docFrame]
+
+/-- the main lemma behind C12: a list-free XML-shaped tree is written as a document that the reader
+accepts and `xmltodict`'s conventions turn into the normalised tree; the text is already stripped -/
+theorem toXml_reads (cfg : Cfg) (hcfg : cfgOk cfg = true) (o : Opts) (ho : isGoodOpts o = true) (t : Val)
+    (ht : xmlShaped false t = true) :
+    ∃ s e, toXml cfg o t = .ok s ∧ xmlRead s = .ok e ∧ xmltodictOf e = normRoot cfg t ∧ stripWs s = s ∧ ∃ tl, s = '<' :: tl := by
+  -- the root
+  obtain ⟨c, k, v, rfl, hk, hv⟩ : ∃ c k v, t = Val.dict c [(k, v)] ∧ isName k = true ∧ shapedVal false v = true := by
+    unfold xmlShaped at ht
+    split at ht
+    · rename_i c k v
+      simp only [Bool.and_eq_true] at ht
+      exact ⟨c, k, v, rfl, ht.1.1, ht.1.2⟩
+    · simp at ht
+  obtain ⟨body, hbody, bpre, tl, d, ks, hb, hbpre, hre, hval⟩ := entry_out cfg hcfg o.indent v k 0 hk hv
+  have hb' : body = '<' :: k ++ tl ++ ['>'] := by
+    rcases hbpre with h | h
+    · rw [hb, h]; rfl
+    · rw [hb, h]; rfl
+  have hpre : entryPrefix cfg k 0 false = [] := by
+    unfold entryPrefix; split <;> simp [spaces]
+  have hxml : xmlVal cfg o.indent (Val.dict c [(k, v)]) 0 = .ok body := by
+    simp [xmlVal, xmlEntries, hbody, hpre, bind, Except.bind]
+  obtain ⟨k0, kcs, hkeq, hk0, _⟩ := isName_cons hk
+  have hk0q : k0 ≠ '?' := by intro h; subst h; revert hk0; decide
+  have hx : xmltodictOf (Elem.mk k d ks) = normRoot cfg (Val.dict c [(k, v)]) := by
+    simp [xmltodictOf, normRoot, normKvs, hval]
+  have hlt : isPySpace '<' = false := by decide
+  have hgt : isPySpace '>' = false := by decide
+  -- the declaration
+  have hdecl : declStr o = [] ∨ ∃ q e0 es, (q = '"' ∨ q = '\'') ∧ isEncStart e0 = true ∧ (∀ c ∈ es, isEncChar c = true) ∧
+      declStr o = declHead ++ [q] ++ ['1', '.', '0'] ++ [q] ++ declEnc ++ [q] ++ (e0 :: es) ++ [q] ++ ['?', '>', '\n'] := by
+    simp only [isGoodOpts, Bool.and_eq_true, Bool.or_eq_true, decide_eq_true_eq] at ho
+    obtain ⟨hq, henc⟩ := ho
+    unfold declStr
+    cases henc' : o.encoding with
+    | none => exact Or.inl rfl
+    | some enc =>
+      cases enc with
+      | nil => exact Or.inl rfl
+      | cons e0 es =>
+        rw [henc'] at henc
+        simp only [Bool.and_eq_true, List.all_eq_true] at henc
+        right
+        rcases hq with hq | hq
+        · exact ⟨'"', e0, es, Or.inl rfl, henc.1, henc.2, by simp [hq, List.append_assoc]⟩
+        · exact ⟨'\'', e0, es, Or.inr rfl, henc.1, henc.2, by simp [hq, List.append_assoc]⟩
+  rcases hdecl with hd | ⟨q, e0, es, hq, he0, hes, hd⟩
+  · refine ⟨body, Elem.mk k d ks, ?_, ?_, hx, ?_, ?_⟩
+    · simp [toXml, hxml, hd, bind, Except.bind]
+    · rw [hb']
+      exact xmlRead_of_elem _ _ k0 (kcs ++ tl ++ ['>']) (by rw [hkeq]; simp) hk0q hre
+    · rw [hb']
+      exact stripWs_id_of_ends '<' '>' (k ++ tl) hlt hgt
+    · exact ⟨k ++ tl ++ ['>'], by rw [hb']; simp⟩
+  · refine ⟨declStr o ++ body, Elem.mk k d ks, ?_, ?_, hx, ?_, ?_⟩
+    · simp [toXml, hxml, bind, Except.bind]
+    · rw [hd, hb']
+      exact xmlRead_decl_elem q e0 es _ _ hq he0 hes hre
+    · rw [hd, hb']
+      have := stripWs_id_of_ends '<' '>'
+        (['?', 'x', 'm', 'l', ' ', 'v', 'e', 'r', 's', 'i', 'o', 'n', '='] ++ [q] ++ ['1', '.', '0'] ++ [q] ++ declEnc ++ [q] ++ (e0 :: es) ++ [q] ++ ['?', '>', '\n'] ++ ('<' :: k ++ tl)) hlt hgt
+      simpa [declHead, List.append_assoc] using this
+    · exact ⟨['?', 'x', 'm', 'l', ' ', 'v', 'e', 'r', 's', 'i', 'o', 'n', '='] ++ [q] ++ ['1', '.', '0'] ++ [q] ++ declEnc ++ [q] ++ (e0 :: es) ++ [q] ++ ['?', '>', '\n'] ++ body,
+        by rw [hd]; simp [declHead, List.append_assoc]⟩
+
+theorem loadXml_of_read {s : Str} {e : Elem} (hstrip : stripWs s = s) (hlt : ∃ tl, s = '<' :: tl) (h : xmlRead s = .ok e) :
+    loadXml s = .ok (xmltodictOf e) := by
+  obtain ⟨tl, rfl⟩ := hlt
+  unfold loadXml
+  simp only [hstrip]
+  rw [h]
+
 end N0.Xml
